@@ -88,11 +88,15 @@ BRIDGE_CFG = {
     ],
     "thorough": [
         ("one-source/len5", dict(Sources="SrcOne", PtAlpha="{0, 101}", Tables="TablesQuick", StartTs="StartWrap",
-                                 Deltas="DeltasFull", Modes="ModesFixed", MaxLen=5)),
+                                 Deltas="DeltasMid", Modes="ModesFixed", MaxLen=5)),
+        ("one-source/full-alphabet/len4", dict(Sources="SrcOne", PtAlpha="{0, 101}", Tables="TablesQuick",
+                                               StartTs="StartWrap", Deltas="DeltasFull", Modes="ModesFixed", MaxLen=4)),
         ("two-sources/len5", dict(Sources="SrcTwo", PtAlpha="{0, 101}", Tables="TablesTwo", StartTs="StartOne",
                                   Deltas="DeltasSmall", Modes="ModesFixed", MaxLen=5)),
-        ("modes/len4", dict(Sources="SrcTwo", PtAlpha="{0, 96, 101}", Tables="TablesAll", StartTs="StartEdge",
+        ("modes/len4", dict(Sources="SrcOne", PtAlpha="{0, 96, 101}", Tables="TablesAll", StartTs="StartEdge",
                             Deltas="DeltasSmall", Modes="ModesAll", MaxLen=4)),
+        ("modes/two-sources/len3", dict(Sources="SrcTwo", PtAlpha="{0, 96, 101}", Tables="TablesAll", StartTs="StartEdge",
+                                        Deltas="DeltasSmall", Modes="ModesAll", MaxLen=3)),
     ],
 }
 
@@ -275,9 +279,21 @@ def run(tier):
     jobs = tlc_jobs(tier)
     sem = threading.Semaphore(7 if tier == "quick" else 5)
 
+    lock = threading.Lock()
+    results = {}
+
     def work(j):
+        # generate, then replay and delete the generated file right away (disk): replays are serialised,
+        # the single-worker TLC runs overlap
         with sem:
             run_tlc_job(ck, tier, j)
+            if "err" in j:
+                return
+            with lock:
+                try:
+                    results[j["label"] + j["sub"]] = consume(ck, tier, j, nontrivial)
+                except Exception as e:
+                    j["err"] = e
 
     th = [threading.Thread(target=work, args=(j,)) for j in jobs]
     for t in th:
@@ -286,11 +302,16 @@ def run(tier):
         t.join()
     for j in jobs:
         if "err" in j:
+            for k in jobs:       # leave nothing big behind
+                try:
+                    os.remove(k.get("out", ""))
+                except OSError:
+                    pass
             raise j["err"]
     total = 0
     exhaustive = True
     for j in jobs:
-        n, ex = consume(ck, tier, j, nontrivial)
+        n, ex = results[j["label"] + j["sub"]]
         total += n
         if not j["consts"].get("sim"):
             exhaustive = exhaustive and ex
